@@ -32,10 +32,15 @@ def pam_runs(case, j):
     base = dict(pts=case["pts"], metric=case["metric"], algo="kmedoids", k=0, cut=0, init=ce.to0(case["init"]),
                 sweeps=case["sweeps"], form="function")
     if case["props"]:
-        return [dict(base, props=ce.to0(case["props"]))]
+        out = [dict(base, props=ce.to0(case["props"]))]
+        if j % 3 == 1:       # the same warm start in (trajectory, frame) pair form, with the consistent labels handed over
+            out.append(dict(base, props=ce.to0(case["props"]), warm="pairs"))
+        return out
     out = [dict(base, seed=j % 17)]
     if j % 3 == 0:
         out.append(dict(base, seed=j % 17, warm="assignments"))
+    if j % 3 == 1:
+        out.append(dict(base, seed=j % 17, warm="pairs"))
     if j % 4 == 0:
         out.append(dict(base, k=len(case["init"]), init=[], seed=j % 13))      # cold start, seeded
     if j % 6 == 0:
